@@ -113,11 +113,14 @@ func (encryptor *QueryDataEncryptor) encryptInsertQuery(ctx context.Context, ins
 	}
 
 	if len(insert.OnDup) > 0 {
+		// the qualifier of `ON DUPLICATE KEY UPDATE tbl.col = ..` is compared in the spelling of the config
+		// (TableIdent.String() keeps the case and the quotes: `INSERT INTO Tbl .. UPDATE Tbl.col = 'v'` found no schema)
+		onDupTables := []*base.AliasedTableName{{TableName: insert.Table}}
 		onDupChanged, err := encryptor.encryptUpdateExpressions(
 			ctx,
 			sqlparser.UpdateExprs(insert.OnDup),
 			insert.Table,
-			base.AliasToTableMap{insert.Table.Name.String(): insert.Table.Name.String()},
+			base.NewAliasToTableMapFromTables(onDupTables),
 			bindPlaceholders)
 		if err != nil {
 			return changed, err
@@ -174,7 +177,9 @@ func (encryptor *QueryDataEncryptor) encryptUpdateExpressions(ctx context.Contex
 		if expr.Name.Qualifier.IsEmpty() {
 			schema = encryptor.schemaStore.GetTableSchema(firstTable.Name.ValueForConfig())
 		} else {
-			tableName := qualifierMap[expr.Name.Qualifier.Name.String()]
+			// looked up in the spelling of the config, like the keys of the map (TableIdent.String() keeps case
+			// and quotes: `UPDATE t AS X SET X.col = 'v'`, `UPDATE T SET T.col = 'v'` found no schema)
+			tableName := qualifierMap[expr.Name.Qualifier.Name.ValueForConfig()]
 			schema = encryptor.schemaStore.GetTableSchema(tableName)
 		}
 		if schema == nil {
